@@ -94,7 +94,9 @@ use std::borrow::Cow;
 use std::collections::{BTreeMap, BTreeSet};
 use std::fmt::Display;
 use std::net::SocketAddr;
+use std::pin::Pin;
 use std::sync::atomic::Ordering;
+use std::task::{Context, Poll};
 use std::time::Duration;
 
 use chitchat::transport::Transport;
@@ -103,7 +105,7 @@ pub use clock::Clock;
 use datacake_rpc::{RpcService, Server};
 pub use error::NodeError;
 pub use extension::ClusterExtension;
-use futures::StreamExt;
+use futures::{Stream, StreamExt};
 pub use node::{ChitchatNode, ClusterMember};
 pub use nodes_selector::{
     Consistency,
@@ -224,7 +226,7 @@ where
         )
         .await?;
 
-        let (tx, membership_changes) = watch::channel(MembershipChange::default());
+        let (tx, membership_changes) = watch::channel(NodeMembership::new());
         tokio::spawn(watch_membership_changes(
             self.node_id,
             network.clone(),
@@ -300,7 +302,7 @@ pub struct DatacakeNode {
     clock: Clock,
     network: RpcNetwork,
     selector: NodeSelectorHandle,
-    membership_changes: watch::Receiver<MembershipChange>,
+    membership_changes: watch::Receiver<NodeMembership>,
     _transport: Box<dyn Transport>,
 }
 
@@ -355,8 +357,8 @@ impl DatacakeNode {
 
     #[inline]
     /// Get a stream of membership changes.
-    pub fn membership_changes(&self) -> WatchStream<MembershipChange> {
-        WatchStream::new(self.membership_changes.clone())
+    pub fn membership_changes(&self) -> MembershipChanges {
+        MembershipChanges::new(self.node.me.node_id, self.membership_changes.clone())
     }
 
     #[inline]
@@ -412,7 +414,7 @@ pub struct DatacakeHandle {
     network: RpcNetwork,
     selector: NodeSelectorHandle,
     statistics: ClusterStatistics,
-    membership_changes: watch::Receiver<MembershipChange>,
+    membership_changes: watch::Receiver<NodeMembership>,
 }
 
 impl DatacakeHandle {
@@ -436,8 +438,8 @@ impl DatacakeHandle {
 
     #[inline]
     /// Get a stream of membership changes.
-    pub fn membership_changes(&self) -> WatchStream<MembershipChange> {
-        WatchStream::new(self.membership_changes.clone())
+    pub fn membership_changes(&self) -> MembershipChanges {
+        MembershipChanges::new(self.me.node_id, self.membership_changes.clone())
     }
 
     #[inline]
@@ -460,6 +462,46 @@ impl DatacakeHandle {
 pub struct MembershipChange {
     pub joined: Vec<ClusterMember>,
     pub left: Vec<ClusterMember>,
+}
+
+/// A stream of membership changes.
+///
+/// Each item is the difference between the membership the stream handed
+/// out last and the current membership, a stream which is created late or
+/// is read slowly therefore never misses a node joining or leaving.
+pub struct MembershipChanges {
+    self_node_id: NodeId,
+    last_members: NodeMembership,
+    members: WatchStream<NodeMembership>,
+}
+
+impl MembershipChanges {
+    fn new(self_node_id: NodeId, members: watch::Receiver<NodeMembership>) -> Self {
+        Self {
+            self_node_id,
+            last_members: NodeMembership::new(),
+            members: WatchStream::new(members),
+        }
+    }
+}
+
+impl Stream for MembershipChanges {
+    type Item = MembershipChange;
+
+    fn poll_next(
+        mut self: Pin<&mut Self>,
+        cx: &mut Context<'_>,
+    ) -> Poll<Option<Self::Item>> {
+        let members = match Pin::new(&mut self.members).poll_next(cx) {
+            Poll::Ready(Some(members)) => members,
+            Poll::Ready(None) => return Poll::Ready(None),
+            Poll::Pending => return Poll::Pending,
+        };
+
+        let changes = membership_delta(self.self_node_id, &self.last_members, &members);
+        self.last_members = members;
+        Poll::Ready(Some(changes))
+    }
 }
 
 struct ClusterInfo<'a> {
@@ -518,9 +560,8 @@ async fn watch_membership_changes(
     node_selector: NodeSelectorHandle,
     statistics: ClusterStatistics,
     mut changes: WatchStream<NodeMembership>,
-    membership_changes_tx: watch::Sender<MembershipChange>,
+    membership_changes_tx: watch::Sender<NodeMembership>,
 ) {
-    let mut last_network_set = BTreeSet::new();
     let mut last_members = NodeMembership::new();
     while let Some(members) = changes.next().await {
         info!(
@@ -528,13 +569,6 @@ async fn watch_membership_changes(
             num_members = members.len(),
             "Cluster membership has changed."
         );
-
-        let mut membership_changes = MembershipChange::default();
-        let new_network_set = members
-            .iter()
-            .filter(|(node_id, _)| *node_id != &self_node_id)
-            .map(|(_, member)| (member.node_id, member.public_addr))
-            .collect::<BTreeSet<_>>();
 
         {
             let mut data_centers = BTreeMap::<Cow<'static, str>, Nodes>::new();
@@ -549,40 +583,68 @@ async fn watch_membership_changes(
             node_selector.set_nodes(data_centers).await;
         }
 
+        let membership_changes =
+            membership_delta(self_node_id, &last_members, &members);
+
         // Remove client no longer apart of the network.
-        for (node_id, addr) in last_network_set.difference(&new_network_set) {
+        for member in membership_changes.left.iter() {
             info!(
                 self_node_id = %self_node_id,
-                target_node_id = %node_id,
-                target_addr = %addr,
+                target_node_id = %member.node_id,
+                target_addr = %member.public_addr,
                 "Node is no longer part of cluster."
             );
 
-            network.disconnect(*addr);
-
-            // The member is gone (or has changed address) in the new set of members,
-            // the one which left is the member as we last knew it.
-            if let Some(member) = last_members.get(node_id) {
-                membership_changes.left.push(member.clone());
-            }
+            network.disconnect(member.public_addr);
         }
 
         // Add new clients for each new node.
-        for (node_id, addr) in new_network_set.difference(&last_network_set) {
+        for member in membership_changes.joined.iter() {
             info!(
                 self_node_id = %self_node_id,
-                target_node_id = %node_id,
-                target_addr = %addr,
+                target_node_id = %member.node_id,
+                target_addr = %member.public_addr,
                 "Node has connected to the cluster."
             );
-
-            if let Some(member) = members.get(node_id) {
-                membership_changes.joined.push(member.clone());
-            }
         }
 
-        let _ = membership_changes_tx.send(membership_changes);
-        last_network_set = new_network_set;
+        // Subscribers work out what has changed since they last looked themselves.
+        let _ = membership_changes_tx.send(members.clone());
         last_members = members;
     }
+}
+
+/// Works out which nodes have left and joined between two sets of members.
+fn membership_delta(
+    self_node_id: NodeId,
+    last_members: &NodeMembership,
+    members: &NodeMembership,
+) -> MembershipChange {
+    let network_set = |members: &NodeMembership| {
+        members
+            .iter()
+            .filter(|(node_id, _)| *node_id != &self_node_id)
+            .map(|(_, member)| (member.node_id, member.public_addr))
+            .collect::<BTreeSet<_>>()
+    };
+    let last_network_set = network_set(last_members);
+    let new_network_set = network_set(members);
+
+    let mut membership_changes = MembershipChange::default();
+
+    // The member is gone (or has changed address) in the new set of members,
+    // the one which left is the member as we last knew it.
+    for (node_id, _) in last_network_set.difference(&new_network_set) {
+        if let Some(member) = last_members.get(node_id) {
+            membership_changes.left.push(member.clone());
+        }
+    }
+
+    for (node_id, _) in new_network_set.difference(&last_network_set) {
+        if let Some(member) = members.get(node_id) {
+            membership_changes.joined.push(member.clone());
+        }
+    }
+
+    membership_changes
 }
